@@ -190,7 +190,7 @@ func (c *CheckCtx) randomClean(n int, tag string, modes []string, opt cleanGenOp
 
 const cleanAssumptions = "programs are trees of tests/subtests with straight-line call lists (scripted driver); 'did not run' is read from the real runner's events; every execution of a test under -count makes the same calls unless a scenario says otherwise (K5); pre-existing files are well-formed frames"
 
-var allCleanModes = []string{"default", "clean", "update", "ci", "other"}
+var allCleanModes = []string{"default", "clean", "update", "ci", "other", "ci+update", "ci+clean"}
 
 func checkC07(c *CheckCtx) error {
 	c.Rule = "(directory, program, -count, Clean mode) scenarios: every TLC-emitted clean case within bounds and seeded random programs (record run, changed current run, Clean); non-trivial = distinct scenario with at least one addressed entry or file at Clean time"
@@ -237,8 +237,8 @@ func checkC20(c *CheckCtx) error {
 	if err := framingModel(c); err != nil {
 		return err
 	}
-	if err := c.randomClean(c.pick(120, 2000), "t", []string{"default", "clean", "update", "ci", "other", "color"},
-		cleanGenOpts{maxTests: 5, maxCalls: 6, change: 0.5, drop: 0.3, add: 0.3, staleProb: 0.5, decoyProb: 0.3, sortProb: 0.3, againProb: 0.1, counts: true}); err != nil {
+	if err := c.randomClean(c.pick(120, 2000), "t", []string{"default", "clean", "update", "ci", "other", "color", "ci+clean"},
+		cleanGenOpts{maxTests: 5, maxCalls: 6, change: 0.5, drop: 0.3, add: 0.3, staleProb: 0.5, decoyProb: 0.3, sortProb: 0.3, againProb: 0.1, counts: true, skipProb: 0.2, parProb: 0.3, badProb: 0.2}); err != nil {
 		return err
 	}
 	return c.summaryHistories()
